@@ -23,7 +23,9 @@ TStep ==
        THEN em' = <<>> /\ rc' = <<>> /\ M' = [bad |-> {}] /\ last' = [a |-> "init"]
        ELSE /\ em' = em \o Keep(Line.obs.em)
             /\ rc' = rc \o Keep(Line.obs.rc)
-            /\ M' = MonStep(M, em', rc', Line.obs.drained)
+            /\ M' = LET m1 == MonStep(M, em', rc', Line.obs.drained) IN
+                    IF Line.obs.drained /\ ~StatusOK(rc', Line.obs.st)
+                      THEN [m1 EXCEPT !.bad = @ \cup {"C16_last_event_contradicts_reported_status"}] ELSE m1
             /\ last' = [a |-> Line.act.a]
   /\ ~(M'.bad \subseteq M.bad) => PrintT(<<"MONITOR", l, M'.bad \ M.bad, {}>>)
 TraceNext == TStep
